@@ -128,8 +128,8 @@ class C21(core.Prop):
                    "the rate sampled at a time advance is the rate the last solve granted, i.e. the rate over the step that just ended",
                    "capacities are constant in this property (profiles and pstate changes belong to C22 / C19)",
                    "multi-thread executions: the action carries threads x flops; its initial remaining is taken as observed",
-                   "known finding excluded by construction (replayed from replays/C21): Exec::get_remaining() aborts at the completion date under "
-                   "the lazy CPU model; the sampler does not call the getter on an action that is no longer running"]
+                   "half of the cases only read the granted rates (observe=rates): calling get_remaining() makes a lazy model fold its pending "
+                   "progress, so observing it at every time advance hides errors of the lazy bookkeeping"]
 
     def strategy(self, tier):
         return workloads()
@@ -247,7 +247,6 @@ class C21(core.Prop):
         WPREC = model.PREC_W
         use_rem = case.get("observe", "remaining") == "remaining"
         labels.add("observe-" + case.get("observe", "remaining"))
-        rint = lambda x: float(round(x))       # the disk model moves rint(rate x step) bytes per step (round-half-even, like rint)
 
         def tolw(a, extra=0.0):
             return 1e-9 * a["amount0"] + WPREC + 8 * math.ulp(a["amount0"]) + extra
@@ -288,12 +287,12 @@ class C21(core.Prop):
                 break
             granted = 0.0
             nsteps = 0
+            io_slack = 0.5 if a["kind"] == "io" else 0.0
             dur = a["finish"] - a["start"]
             for (t0, r0, _), (t1, r1, rate) in zip(pts, pts[1:]):
                 dt = t1 - t0
                 nsteps += 1
-                io_slack = 0.5 if a["kind"] == "io" else 0.0
-                granted += rint(rate * dt) if a["kind"] == "io" else rate * dt
+                granted += rate * dt
                 if not use_rem:
                     continue
                 if r1 > r0 + 8 * math.ulp(a["amount0"]):
@@ -311,7 +310,7 @@ class C21(core.Prop):
                            "%r x %r s = %r" % (who, t0, t1, r0 - r1, rate, dt, rate * dt))
                     break
             else:
-                if abs(granted - a["amount0"]) > tolw(a) * max(1, nsteps) and a["finish"] > a["start"]:
+                if abs(granted - a["amount0"]) > tolw(a, io_slack) * max(1, nsteps) and a["finish"] > a["start"]:
                     oc.bad("work-not-conserved:" + a["kind"], "%s: sum of granted rate x step over its life = %r, requested %r (%d steps)"
                            % (who, granted, a["amount0"], nsteps))
             if oc.violations:
